@@ -140,6 +140,12 @@ func (r *rec) wait(bound time.Duration, pred func() bool) bool {
 	return true
 }
 
+func (r *rec) snapshot() []Ev {
+	r.mu.Lock()
+	defer r.mu.Unlock()
+	return append([]Ev(nil), r.evs...)
+}
+
 func (r *rec) stop() []Ev {
 	r.mu.Lock()
 	defer r.mu.Unlock()
@@ -354,6 +360,8 @@ func (c *sconn) Write(b []byte) (int, error) {
 	c.s.rec.log(Ev{"ev": "Write", "q": q, "c": c.c, "ok": ok, "n": len(b)})
 	return len(b), nil
 }
+
+func (c *sconn) isStalled() bool { c.mu.Lock(); defer c.mu.Unlock(); return c.stalled }
 
 func (c *sconn) setStall(v bool) {
 	c.mu.Lock()
@@ -694,7 +702,13 @@ func (s *script) release(q int, k string) bool {
 	}
 	s.rec.log(Ev{"ev": "Release", "q": q, "k": k})
 	cl.gate <- decision{nilReply: k == "nil", size: size}
+	c := s.h.conn[s.h.addr[q]]
 	s.h.mu.Unlock()
+	if sc := s.conns[c]; !s.udp && k == "reply" && sc != nil && sc.isStalled() {
+		// the client is stalled: let the server reach its Write (it parks there, or gives up on a write deadline)
+		// before the schedule goes on - otherwise the stall would be over before it had any effect
+		s.rec.wait(500*time.Millisecond, func() bool { return sc.wblocked.Load() || s.rec.done[q] || sc.closed.Load() })
+	}
 	return true
 }
 
@@ -956,6 +970,34 @@ func (s *script) windDownTCP() {
 	quiet := !s.steered && strings.HasPrefix(s.why, "no reaction")
 	if !quiet {
 		quiet = !s.observeContexts()
+	}
+	// a connection on which a reply frame was written only in part must be closed by the server (nothing else can
+	// follow a truncated frame); check it before the wind-down closes the connection from the client side
+	if !quiet {
+		var tr []int
+		for _, e := range s.rec.snapshot() {
+			if e["ev"] == "PartialWrite" {
+				tr = append(tr, e["c"].(int))
+			}
+			// likewise a handler that returned nil: the server's reaction (closing) is awaited before the wind-down
+			// closes the connection itself; whether it was due is decided by the spec (Quiet)
+			if e["ev"] == "Release" && e["k"] == "nil" {
+				s.h.mu.Lock()
+				c := s.h.conn[s.h.addr[e["q"].(int)]]
+				s.h.mu.Unlock()
+				if c != 0 {
+					tr = append(tr, c)
+				}
+			}
+		}
+		for _, c := range tr {
+			if !s.rec.wait(waitBound, func() bool { return s.rec.closed[c] }) {
+				s.rec.log(Ev{"ev": "Quiet", "waiting_for": fmt.Sprintf("Close(%d) after a partial write / nil reply", c)})
+				s.fail("connection kept after a partial write / nil reply")
+				quiet = true
+				break
+			}
+		}
 	}
 	var cs []int
 	for c := range s.conns {
